@@ -365,5 +365,6 @@ func runC09(cfg Config) {
 			}
 		}
 	}
+	c09CLI(cfg, rep, rng)
 	rep.Write(cfg.Out)
 }
